@@ -81,7 +81,7 @@ func checkC18(w *World, r *Report) {
 	stageWiring(w, r, ro, "wiring.stage")
 
 	// ---- PER JOB
-	if is := w.FuncByName("", "(*PipelineRunner).initScheduler"); is != nil {
+	if is := w.FuncByRole("", "(*PipelineRunner).initScheduler", func(f *ssa.Function) bool { return callsNamed(f, "taskctl.NewScheduler") }); is != nil {
 		pr := w.EnumPaths(is, EnumOpts{})
 		ok := len(pr.Paths) == 1
 		if ok {
